@@ -415,11 +415,28 @@ class SourceScope(Scope):
             except ImportError:
                 continue
 
-            for name in iterkeys(module._attrs):
-                if not name.startswith('_'):
-                    flow.add_name(ImportedName(name, loc, declared_at, mname, name, True))
+            for name, value in iteritems(module._attrs):
+                if name.startswith('_'):
+                    continue
+                if self._imported_from_here(project, value):
+                    continue
+                flow.add_name(ImportedName(name, loc, declared_at, mname, name, True))
 
         self._star_imports[:] = []
+
+    def _imported_from_here(self, project, name):
+        # type: (Project, t.Any) -> bool
+        # In a cycle of imports the other module may hold names it imported
+        # ('from here import x', 'from here import *') from this very module:
+        # they give this module nothing new, and taking them would make the
+        # name refer to itself, shadowing the import it really came through.
+        if not isinstance(name, ImportedName) or not name.mname:
+            return False
+        try:
+            origin = project.get_nmodule(name.module, name.scope.filename)
+        except ImportError:
+            return False
+        return getattr(origin, 'filename', None) == self.filename
 
 
 def get_first_body_node_loc(body):
